@@ -238,7 +238,7 @@ func (w *World) probeBalances(n *Node, extra []string) {
 				}
 			}
 			if !ok {
-				w.violate("C06", "balance", "error-instead-of-balance", n.Idx, "address %s ref %v err %v", a[:8], vals, err)
+				w.violate("C06", "balance", "error-instead-of-balance", n.Idx, "address %s ref %v err %v", shortAddr(a), vals, err)
 			} else {
 				w.probe("c06-negative-or-overflow-error")
 			}
@@ -253,14 +253,14 @@ func (w *World) probeBalances(n *Node, extra []string) {
 			}
 		}
 		if !canonical(bal.Spice) {
-			w.violate("C05", "non-canonical", "non-canonical-balance-reported", n.Idx, "address %s balance %v", a[:8], bal.Spice)
+			w.violate("C05", "non-canonical", "non-canonical-balance-reported", n.Idx, "address %s balance %v", shortAddr(a), bal.Spice)
 		}
 		if !match {
 			cause := "balance-differs-from-reference"
 			if len(cur.Stored) > 0 {
 				cause = "balance-differs-from-reference-after-truncation"
 			}
-			w.violate("C06", "balance", cause, n.Idx, "address %s got %s ref %v tips %d", a[:8], got, vals, len(cur.Leaves))
+			w.violate("C06", "balance", cause, n.Idx, "address %s got %s ref %v tips %d", shortAddr(a), got, vals, len(cur.Leaves))
 		}
 		if a != before.Genesis {
 			sum.Add(sum, got)
@@ -322,7 +322,7 @@ func (w *World) probeBalances(n *Node, extra []string) {
 			det := ""
 			for _, a := range addrs {
 				in, out := flows(a, allv)
-				det += fmt.Sprintf(" %s:in=%s,out=%s,funds=%v", a[:8], in, out, before.Funds[a])
+				det += fmt.Sprintf(" %s:in=%s,out=%s,funds=%v", shortAddr(a), in, out, before.Funds[a])
 			}
 			w.violate("C02", "supply", "reported-balances-do-not-sum-to-genesis-supply", n.Idx, "sum %s expected %s; genesis issuer %s;%s; live %d stored %d", sum, exp, before.Genesis[:8], det, len(before.Live), len(before.Stored))
 		}
@@ -520,7 +520,7 @@ func (w *World) doTruncate(n *Node, res *StepResult) {
 					w.probe("c07-balance-error-before-truncation-gross-overflow")
 					continue
 				}
-				w.violate("C07", "balance", "balance-changed-by-truncation", n.Idx, "address %s %s -> %s; funds record %v; stored in/out %s/%s; live in/out %s/%s; live-before in/out %s/%s; moved %d live %d->%d tips %v->%v", a[:8], bal0[a], b1, s1.Funds[a], si, so, li, lo, bi, bo, len(moved), len(s0.Live), len(s1.Live), len(s0.Leaves), len(s1.Leaves))
+				w.violate("C07", "balance", "balance-changed-by-truncation", n.Idx, "address %s %s -> %s; funds record %v; stored in/out %s/%s; live in/out %s/%s; live-before in/out %s/%s; moved %d live %d->%d tips %v->%v", shortAddr(a), bal0[a], b1, s1.Funds[a], si, so, li, lo, bi, bo, len(moved), len(s0.Live), len(s1.Live), len(s0.Leaves), len(s1.Leaves))
 			}
 		}
 	}
@@ -627,11 +627,11 @@ func (w *World) checkCheckpointFunds(s *Snap) {
 			got = melVal(f)
 		}
 		if got.Cmp(net) != 0 && (in.Cmp(maxMel) >= 0 || out.Cmp(maxMel) >= 0) {
-			w.violate("C07", "funds", "checkpoint-gross-flow-not-representable", s.Node, "address %s funds %s net flow %s (stored in %s out %s)", a[:8], got, net, in, out)
+			w.violate("C07", "funds", "checkpoint-gross-flow-not-representable", s.Node, "address %s funds %s net flow %s (stored in %s out %s)", shortAddr(a), got, net, in, out)
 			continue
 		}
 		if got.Cmp(net) != 0 {
-			w.violate("C07", "funds", "checkpoint-funds-differ-from-net-flow-of-stored-vertices", s.Node, "address %s funds %s net flow %s (stored in %s out %s, %d stored vertices)", a[:8], got, net, in, out, len(s.Stored))
+			w.violate("C07", "funds", "checkpoint-funds-differ-from-net-flow-of-stored-vertices", s.Node, "address %s funds %s net flow %s (stored in %s out %s, %d stored vertices)", shortAddr(a), got, net, in, out, len(s.Stored))
 		}
 	}
 }
@@ -827,7 +827,7 @@ func (w *World) extraAddrs() []string {
 	if w.strangerAddr == "" {
 		w.strangerAddr = newWalletFrom(newPRNG(w.Seed ^ 0x5151)).Address()
 	}
-	return []string{w.strangerAddr}
+	return append([]string{w.strangerAddr}, w.TextAddrs...)
 }
 
 // probeReads reads every known transaction and vertex by hash and compares with the snapshot.
@@ -945,12 +945,12 @@ func snapDiff(a, b *Snap) string {
 	}
 	for k, v := range a.FundsRaw {
 		if w, ok := b.FundsRaw[k]; !ok || !bytes.Equal(v, w) {
-			out = append(out, "funds~"+k[:8])
+			out = append(out, "funds~"+shortAddr(k))
 		}
 	}
 	for k := range b.FundsRaw {
 		if _, ok := a.FundsRaw[k]; !ok {
-			out = append(out, "funds+"+k[:8])
+			out = append(out, "funds+"+shortAddr(k))
 		}
 	}
 	for k, v := range a.Index {
